@@ -204,6 +204,15 @@ def _build_random_system(rng, ctx):
         if rng.random() < 0.5:
             system.add(tpi)
         system.add(e); comp.append(f"law@tpi:{law}")
+    # a force law between two points of ONE rigid body (its DOF array lists the body's coordinates twice)
+    if rigid and rng.random() < 0.2:
+        a = rigid[int(rng.integers(len(rigid)))]
+        tpi = TwoPointInteraction(a, a, B_r_CP1=rng.normal(size=3), B_r_CP2=rng.normal(size=3))
+        tpi.name = f"tpi_same{len(comp)}"
+        law = ["Spring:force", "KelvinVoigt:force", "Spring:compliance"][int(rng.integers(3))]
+        e, _ = forcegen.make_law(rng, law, tpi)
+        e.name = f"law_same{len(comp)}"
+        system.add(tpi, e); comp.append(f"law@tpi_same_body:{law}")
     # external forces / moments
     for _ in range(int(rng.integers(0, 3))):
         kb, b = bodies[int(rng.integers(len(bodies)))]
